@@ -3,6 +3,7 @@ use exec_common::gen::Cfg;
 use exec_common::*;
 fn main() {
     let mut cfg = Cfg::default();
+    cfg.big_data = true;
     cfg.migrate_bias = true;
     cfg.p_fail = 8;
     cfg.p_malformed = 1;
